@@ -821,10 +821,7 @@ pub fn replay(ctx: &mut Ctx, case: &Value) {
 /// re-run a semantic case from its stored documents (index rebuilt from the JSON documents)
 fn replay_sem(ctx: &mut Ctx, case: &Value, text: &str) {
     let docs = case["docs"].as_array().cloned().unwrap_or_default();
-    let mut rng = Rng::new(7);
-    let w0 = build_world(&mut rng, 0);
-    let schema = w0.index.schema();
-    let index = Index::create_in_ram(schema.clone());
+    let (schema, index) = new_index();
     let mut wr: IndexWriter = index.writer_with_num_threads(1, 20_000_000).unwrap();
     for d in &docs {
         wr.add_document(TantivyDocument::parse_json(&schema, &d.to_string()).unwrap()).unwrap();
@@ -934,6 +931,37 @@ pub fn run(ctx: &mut Ctx) {
     let n_fold = if on("b") { ctx.budget(4_000, 200_000) } else { 0 };
     for _ in 0..n_fold {
         check_fold(ctx, &w);
+    }
+
+    // corpus: a phrase keeps the gap of a token its field's analyzer drops
+    if on("c") {
+        let mut base = gen_doc(&mut Rng::new(5));
+        base.title = vec![];
+        base.body = vec![];
+        let texts = ["quick the fox", "quick fox", "quick brown fox", "the quick fox of", "fox quick", "quick the of fox"];
+        let docs: Vec<DocRec> = texts
+            .iter()
+            .map(|t| {
+                let mut d = base.clone();
+                d.stop = t.split(' ').map(|x| x.to_string()).collect();
+                d
+            })
+            .collect();
+        let w3 = build_world_docs(docs, 3);
+        for (words, slop, prefix) in [
+            (vec!["quick", "the", "fox"], 0u32, false),
+            (vec!["quick", "the", "fox"], 1, false),
+            (vec!["quick", "the", "fo"], 0, true),
+            (vec!["quick", "the", "of", "fox"], 0, false),
+            (vec!["the", "quick", "fox"], 0, false),
+            (vec!["quick", "fox"], 0, false),
+        ] {
+            let g = Gen { leaves: vec![LeafSpec::Phrase { field: Some(F_STOP), words: words.iter().map(|x| x.to_string()).collect(), delim: Delim::Double, slop, prefix }] };
+            let q = Q::Leaf(0);
+            let text = g.print(&mut ctx.rng.fork(), &q, true);
+            ctx.report.count("sem:stop-word-phrase-corpus");
+            check_sem_case(ctx, &w3, &g, &q, &text);
+        }
     }
 
     // (c) semantics on several corpora
